@@ -177,7 +177,7 @@ Lemma spec_out_of_range f s o :
 Proof.
   intros B. assert (UO : forall v x, (length (vars s) <= v)%nat -> upd v x (abs f s) = abs f s)
     by (intros v x L; apply upd_overflow; rewrite abs_length; exact L).
-  destruct o as [v n|v|d sv|d sv|d sv|v|a b|d sv|v c|v m|v|v|v n|v n]; cbn [op_vars forallb] in B;
+  destruct o as [v n|v|d sv|d sv|d sv|v|a b|d sv|v c|v m|v|v|v n|v n|v md|front d sv|v c]; cbn [op_vars forallb] in B;
   rewrite ?andb_true_r in B; try (apply andb_false_iff in B); unfold spec_step, sset.
   - cbn [svars abs_state]. rewrite abs_length, B, andb_false_r. reflexivity.
   - apply Nat.ltb_ge in B. rewrite (sget_overflow f s v B). cbn. apply UO. exact B.
@@ -204,6 +204,11 @@ Proof.
   - apply Nat.ltb_ge in B. rewrite (sget_overflow f s v B). destruct f; reflexivity.
   - apply Nat.ltb_ge in B. cbn. apply UO. exact B.
   - apply Nat.ltb_ge in B. rewrite (sget_overflow f s v B). destruct f; reflexivity.
+  - apply Nat.ltb_ge in B. rewrite (sget_overflow f s v B). destruct f; reflexivity.
+  - apply Nat.ltb_ge in B. rewrite (sget_overflow f s v B). destruct f; reflexivity.
+  - destruct f; try reflexivity. destruct B as [B|B]; apply Nat.ltb_ge in B.
+    + rewrite (sget_overflow FStr s d B). reflexivity.
+    + rewrite (sget_overflow FStr s sv B). cbn [is_dead negb]. rewrite andb_false_r. reflexivity.
   - apply Nat.ltb_ge in B. rewrite (sget_overflow f s v B). destruct f; reflexivity.
 Qed.
 
@@ -340,12 +345,24 @@ Proof.
       rewrite (abs_write_inplace f s v b _ _ I Lv G ltac:(lia)). rewrite NP. reflexivity.
 Qed.
 
+Lemma abs_retype f s v r o c : Inv s -> is_ptr f = false -> (v < length (vars s))%nat -> getv s v = VLive r o ->
+  abs f (retype f s v r c) = upd v (SVal 0 c) (abs f s).
+Proof.
+  intros I NP Lv G. unfold retype.
+  assert (X : abs f (setv (release FVar (fst (alloc s 1 c 0)) r) v (both (HBlock (length (heap s))))) = upd v (SVal 0 c) (abs f s)).
+  { destruct r as [|b].
+    - etransitivity; [exact (abs_alloc_store f s v 1 c 0 I)|]. rewrite NP. reflexivity.
+    - etransitivity; [exact (abs_replace f FVar s v b o c 0 I G)|]. rewrite NP. reflexivity. }
+  destruct f; try exact X; try discriminate.
+  etransitivity; [exact (abs_release_alloc FXml FVar s v r c 0 I)|]. reflexivity.
+Qed.
+
 Theorem step_refines f s o : Inv s -> abs f (step f s o) = svars (spec_step f (abs_state f s) o).
 Proof.
   intros I. pose proof I as [W C]. unfold step, step_gen. rewrite (wf_flt _ _ W).
   destruct (forallb (fun v => Nat.ltb v (length (vars s))) (op_vars o)) eqn:B; cbn [negb];
     [|symmetry; apply spec_out_of_range; exact B].
-  destruct o as [v n|v|d sv|d sv|d sv|v|a b|d sv|v c|v m|v|v|v n|v n]; cbn [op_vars forallb] in B;
+  destruct o as [v n|v|d sv|d sv|d sv|v|a b|d sv|v c|v m|v|v|v n|v n|v md|front d sv|v c]; cbn [op_vars forallb] in B;
   rewrite ?andb_true_r, ?andb_true_iff, ?Nat.ltb_lt in B; unfold spec_step, sset; rewrite ?sget_abs, ?is_dead_abs; cbn [svars screated abs_state].
   - (* OCreate *)
     rewrite abs_length. apply Nat.ltb_lt in B. rewrite B, andb_true_r. apply Nat.ltb_lt in B.
@@ -468,6 +485,25 @@ Proof.
   - (* OReserve *)
     destruct f; try reflexivity; destruct (getv s v) as [|r o] eqn:G; try reflexivity; cbn [svars].
     apply (abs_str_detach FStr s v r o (SReserve n) I eq_refl B G).
+  - (* OStrMod *)
+    destruct f; try reflexivity; destruct (getv s v) as [|r o] eqn:G; try reflexivity; cbn [svars].
+    apply (abs_str_detach FStr s v r o md I eq_refl B G).
+  - (* OStrCatV *)
+    destruct B as [Bd Bs].
+    destruct f; try reflexivity.
+    destruct (getv s d) as [|rd od] eqn:Gd; [reflexivity|]. cbn [negb andb].
+    destruct (getv s sv) as [|rs os] eqn:Gs; [reflexivity|]. cbn [negb andb svars].
+    pose proof (C _ _ _ Gs) as RO. subst os.
+    assert (T : (match rs with HBlock b => touch s b | HNone => s end) = s).
+    { destruct rs as [|b]; [reflexivity|]. destruct (Inv_live s sv b _ I Gs) as [[L F] R]. apply touch_live; exact F. }
+    rewrite T.
+    rewrite (touch_var_id _ sv (Inv_str_detach s d rd od _ I Bd Gd)).
+    rewrite (abs_str_detach FStr s d rd od _ I eq_refl Bd Gd).
+    destruct rs as [|b]; reflexivity.
+  - (* ORetype *)
+    destruct f; try reflexivity; destruct (getv s v) as [|r o] eqn:G; try reflexivity; cbn [svars].
+    + apply (abs_retype FVar s v r o c I eq_refl B G).
+    + apply (abs_retype FXml s v r o c I eq_refl B G).
 Qed.
 
 (* ---- whole histories (String, Variant, Xml::Variant: the value does not mention identities) ------------------- *)
@@ -550,7 +586,7 @@ Lemma ptr_step_created s o : Inv s ->
   screated (spec_step FPtr (abs_state FPtr s) o) = length (heap (step FPtr s o)).
 Proof.
   intros I. pose proof I as [W C].
-  destruct o as [v n| | | | | | | | | | | | | ];
+  destruct o as [v n| | | | | | | | | | | | | | | | ];
     try (rewrite hl_step_ptr by discriminate; rewrite created_step_other by discriminate; reflexivity).
   unfold step, step_gen. rewrite (wf_flt _ _ W). cbn [op_vars forallb]. rewrite andb_true_r.
   unfold spec_step. rewrite sget_abs, is_dead_abs. cbn [svars abs_state]. rewrite abs_length.
